@@ -676,3 +676,341 @@ lim5_ack!(lim5_puback, PublishAck, PublishAck, any_puback_reason, 0x40);
 //@ mem: 10  timeout: 1500
 //@ desc: PUBREL under an outbound limit (same obligations as lim5_puback)
 lim5_ack!(lim5_pubrel, PublishRelease, PublishAck2, any_puback2_reason, 0x62);
+
+macro_rules! lim5_suback {
+    ($name:ident, $variant:ident, $ty:ident, $reason:ident, $first:expr) => {
+        vharness! {
+            fn $name() unwind(6) {
+                let n = vk::any_len(2);
+                let mut status = Vec::new();
+                let mut wire = [0u8; 2];
+                let mut i = 0;
+                while i < n {
+                    let (c, w) = $reason();
+                    status.push(c);
+                    wire[i] = w;
+                    i += 1;
+                }
+                let pkt = $ty {
+                    packet_id: vh::any_nz16(),
+                    properties: any_user_props2::<1>(),
+                    reason_string: vh::any_opt_str::<2>(),
+                    status,
+                };
+                let peer_max = any_peer_max();
+                let npi = vk::any_bool();
+                let codec = lim_codec(peer_max, npi);
+                let mut pages = BytePages::default();
+                let r = codec.encodev(Encoded::Packet(Packet::$variant(pkt.clone())), &mut pages);
+                match r {
+                    Err(e) => {
+                        assert!(pages.len() == 0, "a failed encode appends no bytes");
+                        assert!(e == EncodeError::OverMaxPacketSize);
+                        // bare packet: id(2) + empty property list(1) + codes(n), next to the 5 reserved header bytes
+                        assert!(peer_max != 0 && (3 + n + 5) as u64 > peer_max as u64);
+                    }
+                    Ok(()) => {
+                        let out = pages.freeze();
+                        let (mut rd, rl) = lim_frame(&out, $first, peer_max);
+                        assert!(rd.u16() == pkt.packet_id.get());
+                        let end = props_begin(&mut rd);
+                        let (ok, n_up, has_rs) = spec_read_diag_lim(&mut rd, end, &pkt.properties, &pkt.reason_string);
+                        assert!(ok);
+                        assert!(rd.expect_raw(&wire[..n]), "reason codes unchanged");
+                        assert!(rd.at_end() && !rd.bad);
+                        if npi {
+                            assert!(n_up == 0 && !has_rs, "problem information declined: no diagnostics");
+                        } else if peer_max == 0 || peer_max as u64 >= (2 + 2 + n + 4 + 4 + 5 + diag_full_len(&pkt.properties, &pkt.reason_string)) as u64 {
+                            assert!(n_up == pkt.properties.len() && has_rs == pkt.reason_string.is_some());
+                        }
+                        let lim = if peer_max == 0 { 0xFFF_FFFF } else { peer_max - 5 };
+                        let mut again = pkt.clone();
+                        if npi { again.properties.clear(); again.reason_string = None; }
+                        assert!(again.encoded_size(lim) == rl as usize);
+                        vcover!(n_up == 1 && pkt.properties.len() == 2, "second user property dropped, first kept");
+                        vcover!(!has_rs && pkt.reason_string.is_some() && !npi, "reason string dropped by the limit");
+                        vcover!(n_up == 2 && has_rs && n == 2, "nothing dropped");
+                    }
+                }
+            }
+        }
+    };
+}
+//@ props: C09
+//@ tier: quick
+//@ functions: v5::Codec::{encodev, set_max_outbound_size}, EncodeLtd for SubscribeAck, ack_props::*, reduce_limit, encoded_size_opt_props, encode_opt_props
+//@ bounds: peer Maximum Packet Size: every u32 except 1..=5; request-problem-information symbolic; 0..=2 reason codes; 0..=2 user properties (0..=1-byte strings); optional reason string 0..=2 bytes
+//@ unwindset: utf8_is_valid=4 slice_eq=4 expect_lp=4 expect_raw=4 any_user_props2=4 encode_opt_props=4 encoded_size_opt_props=4 clone=4 spec_read_diag_lim=5 diag_full_len=4 clear=4 SubscribeAck=4
+//@ assumes: strings well-formed UTF-8; peer limits 1..=5 excluded (recorded finding)
+//@ mem: 10  timeout: 1500
+//@ desc: SUBACK under an outbound limit (obligations as lim5_puback; reason codes never dropped)
+lim5_suback!(lim5_suback, SubscribeAck, SubscribeAck, any_suback_reason, 0x90);
+//@ props: C09
+//@ tier: quick
+//@ functions: v5::Codec::{encodev, set_max_outbound_size}, EncodeLtd for UnsubscribeAck, ack_props::*, reduce_limit
+//@ bounds: as lim5_suback
+//@ unwindset: utf8_is_valid=4 slice_eq=4 expect_lp=4 expect_raw=4 any_user_props2=4 encode_opt_props=4 encoded_size_opt_props=4 clone=4 spec_read_diag_lim=5 diag_full_len=4 clear=4 UnsubscribeAck=4
+//@ assumes: strings well-formed UTF-8; peer limits 1..=5 excluded (recorded finding)
+//@ mem: 10  timeout: 1500
+//@ desc: UNSUBACK under an outbound limit
+lim5_suback!(lim5_unsuback, UnsubscribeAck, UnsubscribeAck, any_unsuback_reason, 0xB0);
+
+vharness! {
+    //@ props: C09 C15
+    //@ tier: quick
+    //@ functions: v5::Codec::{encodev, set_max_outbound_size}, EncodeLtd for Disconnect, reduce_limit, encoded_size_opt_props, encode_opt_props, var_int_len_from_size
+    //@ bounds: peer Maximum Packet Size: every u32 except 1..=5; all 30 reason codes; optional session expiry (full width) and server reference (0..=1 byte) - never droppable; 0..=2 user properties (0..=1-byte strings); optional reason string 0..=2 bytes
+    //@ unwindset: utf8_is_valid=4 slice_eq=4 expect_lp=4 any_user_props2=4 encode_opt_props=4 encoded_size_opt_props=4 clone=4 diag_full_len=4 Disconnect=6
+    //@ assumes: strings well-formed UTF-8; peer limits 1..=5 excluded (recorded finding)
+    //@ mem: 10  timeout: 1500
+    //@ desc: DISCONNECT under an outbound limit: session expiry and server reference are never dropped; user properties shortened to a prefix, reason string whole or absent; size truthful; Err => OverMaxPacketSize with nothing appended
+    fn lim5_disconnect() unwind(6) {
+        let (reason_code, num) = any_disconnect_reason();
+        let pkt = Disconnect {
+            reason_code,
+            session_expiry_interval_secs: vh::any_opt_u32(),
+            server_reference: vh::any_opt_str::<1>(),
+            reason_string: vh::any_opt_str::<2>(),
+            user_properties: any_user_props2::<1>(),
+        };
+        let peer_max = any_peer_max();
+        let codec = lim_codec(peer_max, false);
+        let mut pages = BytePages::default();
+        let r = codec.encodev(Encoded::Packet(Packet::Disconnect(pkt.clone())), &mut pages);
+        let fixed_props = if pkt.session_expiry_interval_secs.is_some() { 5 } else { 0 }
+            + match &pkt.server_reference { Some(s) => 3 + s.len(), None => 0 };
+        match r {
+            Err(e) => {
+                assert!(pages.len() == 0, "a failed encode appends no bytes");
+                assert!(e == EncodeError::OverMaxPacketSize);
+                assert!(peer_max != 0 && (1 + 1 + fixed_props + 5) as u64 > peer_max as u64);
+            }
+            Ok(()) => {
+                let out = pages.freeze();
+                let (mut rd, rl) = lim_frame(&out, 0xE0, peer_max);
+                assert!(rd.u8() == num);
+                let end = props_begin(&mut rd);
+                let (mut s11, mut s1c, mut s1f) = (false, false, false);
+                let mut idx = 0;
+                let mut guard = 0;
+                while rd.pos < end && !rd.bad && guard < 7 {
+                    match rd.u8() {
+                        0x11 => { assert!(!s11); s11 = true; assert!(Some(rd.u32()) == pkt.session_expiry_interval_secs); }
+                        0x1C => { assert!(!s1c); s1c = true; match &pkt.server_reference { Some(s) => assert!(rd.expect_lp(s.as_bytes())), None => assert!(false) } }
+                        0x1F => { assert!(!s1f); s1f = true; match &pkt.reason_string { Some(s) => assert!(rd.expect_lp(s.as_bytes())), None => assert!(false) } }
+                        0x26 => {
+                            assert!(idx < pkt.user_properties.len());
+                            assert!(rd.expect_lp(pkt.user_properties[idx].0.as_bytes()) & rd.expect_lp(pkt.user_properties[idx].1.as_bytes()));
+                            idx += 1;
+                        }
+                        _ => assert!(false),
+                    }
+                    guard += 1;
+                }
+                assert!(rd.pos == end && rd.at_end() && !rd.bad);
+                assert!(s11 == pkt.session_expiry_interval_secs.is_some(), "session expiry is never dropped");
+                assert!(s1c == pkt.server_reference.is_some(), "server reference is never dropped");
+                if peer_max == 0 || peer_max as u64 >= (2 + fixed_props + 4 + 5 + 4 + diag_full_len(&pkt.user_properties, &pkt.reason_string)) as u64 {
+                    assert!(idx == pkt.user_properties.len() && s1f == pkt.reason_string.is_some());
+                }
+                let lim = if peer_max == 0 { 0xFFF_FFFF } else { peer_max - 5 };
+                assert!(pkt.encoded_size(lim) == rl as usize);
+                vcover!(idx == 1 && pkt.user_properties.len() == 2, "second user property dropped, first kept");
+                vcover!(!s1f && pkt.reason_string.is_some(), "reason string dropped by the limit");
+                vcover!(idx == 0 && pkt.user_properties.len() == 2 && s11 && s1c, "diagnostics dropped, mandatory properties kept");
+            }
+        }
+    }
+}
+
+vharness! {
+    //@ props: C09
+    //@ tier: quick
+    //@ functions: v5::Codec::{encodev, set_max_outbound_size}, EncodeLtd for Auth, reduce_limit, encoded_size_opt_props, encode_opt_props, var_int_len_from_size
+    //@ bounds: peer Maximum Packet Size: every u32 except 1..=5; request-problem-information symbolic; all 3 reason codes; optional auth method/data (0..=1 byte) - never droppable; 0..=2 user properties; optional reason string 0..=2 bytes
+    //@ unwindset: utf8_is_valid=4 slice_eq=4 expect_lp=4 any_user_props2=4 encode_opt_props=4 encoded_size_opt_props=4 clone=4 diag_full_len=4 Auth=6 clear=4
+    //@ assumes: strings well-formed UTF-8; peer limits 1..=5 excluded (recorded finding)
+    //@ mem: 10  timeout: 1500
+    //@ desc: AUTH under an outbound limit: method and data never dropped; diagnostics shortened whole; declined problem information => no diagnostics
+    fn lim5_auth() unwind(6) {
+        let (reason_code, num) = any_auth_reason();
+        let pkt = Auth {
+            reason_code,
+            auth_method: vh::any_opt_str::<1>(),
+            auth_data: vh::any_opt_bin::<1>(),
+            reason_string: vh::any_opt_str::<2>(),
+            user_properties: any_user_props2::<1>(),
+        };
+        let peer_max = any_peer_max();
+        let npi = vk::any_bool();
+        let codec = lim_codec(peer_max, npi);
+        let mut pages = BytePages::default();
+        let r = codec.encodev(Encoded::Packet(Packet::Auth(pkt.clone())), &mut pages);
+        let fixed_props = match &pkt.auth_method { Some(s) => 3 + s.len(), None => 0 }
+            + match &pkt.auth_data { Some(s) => 3 + s.len(), None => 0 };
+        match r {
+            Err(e) => {
+                assert!(pages.len() == 0, "a failed encode appends no bytes");
+                assert!(e == EncodeError::OverMaxPacketSize);
+                assert!(peer_max != 0 && (1 + 1 + fixed_props + 5) as u64 > peer_max as u64);
+            }
+            Ok(()) => {
+                let out = pages.freeze();
+                let (mut rd, rl) = lim_frame(&out, 0xF0, peer_max);
+                assert!(rd.u8() == num);
+                let end = props_begin(&mut rd);
+                let (mut s15, mut s16, mut s1f) = (false, false, false);
+                let mut idx = 0;
+                let mut guard = 0;
+                while rd.pos < end && !rd.bad && guard < 7 {
+                    match rd.u8() {
+                        0x15 => { assert!(!s15); s15 = true; match &pkt.auth_method { Some(s) => assert!(rd.expect_lp(s.as_bytes())), None => assert!(false) } }
+                        0x16 => { assert!(!s16); s16 = true; match &pkt.auth_data { Some(s) => assert!(rd.expect_lp(s)), None => assert!(false) } }
+                        0x1F => { assert!(!s1f); s1f = true; match &pkt.reason_string { Some(s) => assert!(rd.expect_lp(s.as_bytes())), None => assert!(false) } }
+                        0x26 => {
+                            assert!(idx < pkt.user_properties.len());
+                            assert!(rd.expect_lp(pkt.user_properties[idx].0.as_bytes()) & rd.expect_lp(pkt.user_properties[idx].1.as_bytes()));
+                            idx += 1;
+                        }
+                        _ => assert!(false),
+                    }
+                    guard += 1;
+                }
+                assert!(rd.pos == end && rd.at_end() && !rd.bad);
+                assert!(s15 == pkt.auth_method.is_some() && s16 == pkt.auth_data.is_some(), "method and data are never dropped");
+                if npi {
+                    assert!(idx == 0 && !s1f);
+                } else if peer_max == 0 || peer_max as u64 >= (2 + fixed_props + 4 + 5 + 4 + diag_full_len(&pkt.user_properties, &pkt.reason_string)) as u64 {
+                    assert!(idx == pkt.user_properties.len() && s1f == pkt.reason_string.is_some());
+                }
+                let lim = if peer_max == 0 { 0xFFF_FFFF } else { peer_max - 5 };
+                let mut again = pkt.clone();
+                if npi { again.user_properties.clear(); again.reason_string = None; }
+                assert!(again.encoded_size(lim) == rl as usize);
+                vcover!(idx == 1 && pkt.user_properties.len() == 2, "second user property dropped, first kept");
+                vcover!(!s1f && pkt.reason_string.is_some() && !npi, "reason string dropped by the limit");
+            }
+        }
+    }
+}
+
+vharness! {
+    //@ props: C09
+    //@ tier: quick
+    //@ functions: v5::Codec::{encodev, set_max_outbound_size}, EncodeLtd for ConnectAck, reduce_limit, encoded_size_opt_props, encode_opt_props, var_int_len_from_size
+    //@ bounds: peer Maximum Packet Size: every u32 except 1..=5; reason code symbolic; optional assigned client id (0..=1 byte), server keep-alive, session expiry - never droppable; 0..=2 user properties; optional reason string 0..=2 bytes; other properties at defaults
+    //@ unwindset: utf8_is_valid=4 slice_eq=4 expect_lp=4 any_user_props2=4 encode_opt_props=4 encoded_size_opt_props=4 clone=4 diag_full_len=4 ConnectAck=6
+    //@ assumes: strings well-formed UTF-8; peer limits 1..=5 excluded (recorded finding)
+    //@ mem: 10  timeout: 1500
+    //@ desc: CONNACK under an outbound limit: only user properties / reason string are shortened; size truthful
+    fn lim5_connack() unwind(6) {
+        let (reason_code, num) = any_connack_reason();
+        let mut pkt = ConnectAck::default();
+        pkt.reason_code = reason_code;
+        pkt.session_present = vk::any_bool();
+        pkt.assigned_client_id = vh::any_opt_str::<1>();
+        pkt.server_keepalive_sec = vh::any_opt_u16();
+        pkt.session_expiry_interval_secs = vh::any_opt_u32();
+        pkt.reason_string = vh::any_opt_str::<2>();
+        pkt.user_properties = any_user_props2::<1>();
+        let peer_max = any_peer_max();
+        let codec = lim_codec(peer_max, false);
+        let mut pages = BytePages::default();
+        let r = codec.encodev(Encoded::Packet(Packet::ConnectAck(Box::new(pkt.clone()))), &mut pages);
+        let fixed_props = match &pkt.assigned_client_id { Some(s) => 3 + s.len(), None => 0 }
+            + if pkt.server_keepalive_sec.is_some() { 3 } else { 0 }
+            + if pkt.session_expiry_interval_secs.is_some() { 5 } else { 0 };
+        match r {
+            Err(e) => {
+                assert!(pages.len() == 0, "a failed encode appends no bytes");
+                assert!(e == EncodeError::OverMaxPacketSize);
+                assert!(peer_max != 0 && (2 + 1 + fixed_props + 5) as u64 > peer_max as u64);
+            }
+            Ok(()) => {
+                let out = pages.freeze();
+                let (mut rd, rl) = lim_frame(&out, 0x20, peer_max);
+                assert!(rd.u8() == pkt.session_present as u8);
+                assert!(rd.u8() == num);
+                let end = props_begin(&mut rd);
+                let (mut s12, mut s13, mut s11, mut s1f) = (false, false, false, false);
+                let mut idx = 0;
+                let mut guard = 0;
+                while rd.pos < end && !rd.bad && guard < 8 {
+                    match rd.u8() {
+                        0x12 => { assert!(!s12); s12 = true; match &pkt.assigned_client_id { Some(s) => assert!(rd.expect_lp(s.as_bytes())), None => assert!(false) } }
+                        0x13 => { assert!(!s13); s13 = true; assert!(Some(rd.u16()) == pkt.server_keepalive_sec); }
+                        0x11 => { assert!(!s11); s11 = true; assert!(Some(rd.u32()) == pkt.session_expiry_interval_secs); }
+                        0x1F => { assert!(!s1f); s1f = true; match &pkt.reason_string { Some(s) => assert!(rd.expect_lp(s.as_bytes())), None => assert!(false) } }
+                        0x26 => {
+                            assert!(idx < pkt.user_properties.len());
+                            assert!(rd.expect_lp(pkt.user_properties[idx].0.as_bytes()) & rd.expect_lp(pkt.user_properties[idx].1.as_bytes()));
+                            idx += 1;
+                        }
+                        _ => assert!(false),
+                    }
+                    guard += 1;
+                }
+                assert!(rd.pos == end && rd.at_end() && !rd.bad);
+                assert!(s12 == pkt.assigned_client_id.is_some() && s13 == pkt.server_keepalive_sec.is_some() && s11 == pkt.session_expiry_interval_secs.is_some(),
+                    "non-diagnostic properties are never dropped");
+                if peer_max == 0 || peer_max as u64 >= (3 + fixed_props + 4 + 5 + 4 + diag_full_len(&pkt.user_properties, &pkt.reason_string)) as u64 {
+                    assert!(idx == pkt.user_properties.len() && s1f == pkt.reason_string.is_some());
+                }
+                let lim = if peer_max == 0 { 0xFFF_FFFF } else { peer_max - 5 };
+                assert!(pkt.encoded_size(lim) == rl as usize);
+                vcover!(idx == 1 && pkt.user_properties.len() == 2, "second user property dropped, first kept");
+                vcover!(!s1f && pkt.reason_string.is_some(), "reason string dropped by the limit");
+            }
+        }
+    }
+}
+
+vharness! {
+    //@ props: C09
+    //@ tier: quick
+    //@ functions: v5::Codec::{encodev, set_max_outbound_size}, EncodeLtd for PublishAck, ack_props::*
+    //@ bounds: peer Maximum Packet Size 1..=5 (the values excluded everywhere else); PUBACK without diagnostics
+    //@ finding: known: for a peer Maximum Packet Size of 1..=5 set_max_outbound_size keeps the value as the CONTENT budget (it only subtracts the 5 header bytes above 5), so frames of up to limit+2.. bytes are emitted
+    //@ desc: documents the recorded finding for absurdly small peer limits: the 6-byte bare PUBACK frame is emitted although the peer announced a maximum of 4 or 5
+    fn lim5_small_peer() unwind(6) {
+        let peer_max = vk::any_u32();
+        vk::assume(peer_max >= 1 && peer_max <= 5);
+        let pkt = PublishAck { packet_id: vh::any_nz16(), reason_code: super::super::packet::PublishAckReason::Success, properties: Vec::new(), reason_string: None };
+        let codec = lim_codec(peer_max, false);
+        let mut pages = BytePages::default();
+        let r = codec.encodev(Encoded::Packet(Packet::PublishAck(pkt)), &mut pages);
+        match r {
+            Err(e) => {
+                assert!(pages.len() == 0);
+                assert!(e == EncodeError::OverMaxPacketSize);
+            }
+            Ok(()) => {
+                assert!(pages.len() as u64 <= peer_max as u64, "frame exceeds the peer's Maximum Packet Size");
+            }
+        }
+        vcover!(r.is_err(), "rejected");
+        vcover!(r.is_ok(), "emitted");
+    }
+}
+
+vharness! {
+    //@ props: C09
+    //@ tier: quick
+    //@ expect: fail
+    //@ unwindset: utf8_is_valid=4 slice_eq=4 expect_lp=4 any_user_props2=4 encode_opt_props=4 encoded_size_opt_props=4 clone=4
+    //@ desc: reachability twin of the lim5_* family (claims an encode under a limit never succeeds with dropped diagnostics)
+    fn twin_lim5() unwind(6) {
+        let pkt = PublishAck {
+            packet_id: vh::any_nz16(),
+            reason_code: super::super::packet::PublishAckReason::Success,
+            properties: any_user_props2::<1>(),
+            reason_string: None,
+        };
+        let peer_max = any_peer_max();
+        let codec = lim_codec(peer_max, false);
+        let mut pages = BytePages::default();
+        let r = codec.encodev(Encoded::Packet(Packet::PublishAck(pkt.clone())), &mut pages);
+        // "whenever there are two user properties the frame is at least 19 bytes" - false once the limit drops them
+        assert!(!(r.is_ok() && pkt.properties.len() == 2 && pages.len() < 19));
+    }
+}
